@@ -45,7 +45,14 @@ var c17Files = map[string]string{
 	"syn.lua":       "local x = = 1\n",
 	"sub/other.lua": "print(undefinedsub)\nlocal unusedsub = 1\n",
 	"ann.lua":       "---@type\nlocal annv = 1\nprint(annv)\n---@class\nlocal annc = {}\nprint(annc)\n",
+	// one class declared in two files, one of them under the folder the ignore rules name: the duplicate-type diagnostic
+	// of each file depends on the other file being analysed, not on the other file's diagnostics being shown
+	"dup.lua":      "---@class DupC\nlocal dupc1 = {}\nprint(dupc1)\n",
+	"sub/dupa.lua": "---@class DupC\nlocal dupc2 = {}\nprint(dupc2)\n",
 }
+
+// c17DupPartner: the file whose analysis a duplicate-type diagnostic of the given file depends on
+var c17DupPartner = map[string]string{"dup.lua": "sub/dupa.lua", "sub/dupa.lua": "dup.lua"}
 
 type c17Diag struct {
 	File string
@@ -474,7 +481,7 @@ func c17RuleSpace() *core.Space {
 				case "IgnoreFileOrFloder":
 					ff = append(ff, ru.pattern)
 				case "IgnoreFileErrTypes":
-					ft = append(ft, map[string]interface{}{"File": ru.pattern, "Types": []int{4}})
+					ft = append(ft, map[string]interface{}{"File": ru.pattern, "Types": []int{4, 18}})
 				}
 			}
 			if fe != nil {
@@ -513,6 +520,14 @@ func c17RuleSpace() *core.Space {
 				return
 			}
 			want := c17Filter(base, func(d c17Diag) bool {
+				// a duplicate-type diagnostic goes away with the analysis of the other declaring file (folder rule), and only then
+				if p, ok := c17DupPartner[d.File]; ok && d.Type == 18 && strings.Contains(d.Msg, "DupC") {
+					for _, ru := range set {
+						if ru.key == "IgnoreFileOrFloder" && ru.pattern != "(" && c17Match(ru.pattern, p) {
+							return false
+						}
+					}
+				}
 				for _, ru := range set {
 					if ru.pattern == "(" {
 						continue // an invalid pattern that was ignored matches nothing
@@ -524,7 +539,7 @@ func c17RuleSpace() *core.Space {
 					case "IgnoreFileErr", "IgnoreFileOrFloder":
 						return false
 					case "IgnoreFileErrTypes":
-						if d.Type == 4 {
+						if d.Type == 4 || d.Type == 18 {
 							return false
 						}
 					}
@@ -550,9 +565,9 @@ func init() {
 		ID:        "C17",
 		Technique: "exhaustive enumeration of configurations (all 2^26 flag vectors on the real flag mapping; all one/two-flag deviations x 3 delivery channels and all ignore-rule subsets <=2 on the real server) with a metamorphic oracle: diag(c) = filter_c(diag(all enabled))",
 		Rule: "(a) every one of the 2^26 client flag vectors (quick: 2^20 with the remaining flags on) is pushed through GlobalConfig.HandleChangeCheckList and IsIgnoreErrorFile must ignore exactly the types whose flag is off; (b) all-on, master off, every single and (thorough: every) pair of flags off from all-on / on from all-off, each delivered by initializationOptions, a later didChangeConfiguration and luahelper.json, " +
-			"must show exactly the all-enabled diagnostics of the fixed 4-file workspace whose type is enabled; (c) every subset of size <=2 of {IgnoreFileErr, IgnoreFileOrFloder, IgnoreFileErrTypes} x {literal file, folder, regex, regex matching nothing, invalid regex} must remove exactly the matching files' diagnostics (type 4 only for the per-file type rule); an invalid regex must be rejected or ignored. " +
+			"must show exactly the all-enabled diagnostics of the fixed 6-file workspace whose type is enabled; (c) every subset of size <=2 of {IgnoreFileErr, IgnoreFileOrFloder, IgnoreFileErrTypes} x {literal file, folder, regex, regex matching nothing, invalid regex} must remove exactly the matching files' diagnostics (types 4 and 18 only for the per-file type rule; a class declared in two files, one of them under the ignored folder, keeps its duplicate-type diagnostic in the other file unless the folder is excluded from analysis); an invalid regex must be rejected or ignored. " +
 			"states = configurations judged; non-trivial = configurations that exclude something. The check reports 'vacuous' if the all-enabled run shows fewer than 14 distinct types",
-		Assumptions: []string{"the workspace under checks/c17.go triggers the diagnostic types listed in the evidence counters", "ignored files have no cross-file influence on the other files of the workspace"},
+		Assumptions: []string{"the workspace under checks/c17.go triggers the diagnostic types listed in the evidence counters", "apart from the class declared twice, files whose diagnostics are ignored have no cross-file influence on the other files of the workspace"},
 		Flavour:     "prod+overlay", QuickBudgetS: 150, ThoroughBudgetS: 900,
 		Spaces: func(tier string) []*core.Space {
 			bits := 20
